@@ -4,6 +4,9 @@
 //
 // The table is built dynamically: a subclass of rtosc::Ports (`Ports({})`, push_back,
 // the protected refreshMagic()), names in exact-size heap blocks, sub-tables nested.
+// `T<d>c[` / `T<d>m[`: the table that is dispatched is a copy built by the library's own
+// ClonePorts (each port with its callback, the default handler as "*") resp. MergePorts
+// (first half + second half) constructor — only used for tables with pairwise different names.
 // Callbacks are plain logging callbacks (the sugar callbacks dereference data.loc and
 // cannot be dispatched without a location buffer):
 //   * a port without sub-table logs what it was handed;
@@ -31,11 +34,33 @@ struct DynPorts : rtosc::Ports {
     void rebuild() { refreshMagic(); }
 };
 struct TNode {
-    DynPorts ports;
+    DynPorts ports;                            // the table as written in the op line
+    // the table that is dispatched: `ports` itself, or a copy of it built by the library's
+    // ClonePorts / MergePorts constructors (which rebuild the lookup tables)
+    std::unique_ptr<rtosc::Ports> built;
+    DynPorts half1, half2;
+    rtosc::Ports *use = nullptr;
     std::string path;                          // "r" for the root, else indices joined by '.'
     std::vector<std::unique_ptr<TNode>> kids;
     std::vector<std::unique_ptr<Exact>> names;
 };
+
+// ClonePorts takes a std::initializer_list: build one of run-time length n <= 32
+template <size_t... I> struct iseq {};
+template <size_t N, size_t... I> struct gen_iseq : gen_iseq<N - 1, N - 1, I...> {};
+template <size_t... I> struct gen_iseq<0, I...> { typedef iseq<I...> type; };
+template <size_t... I>
+static rtosc::Ports *clone_n(const rtosc::Ports &src, const std::vector<rtosc::ClonePort> &v, iseq<I...>) {
+    return new rtosc::ClonePorts(src, {v[I]...});
+}
+template <size_t N> static rtosc::Ports *clone_sw(const rtosc::Ports &src, const std::vector<rtosc::ClonePort> &v) {
+    if (v.size() == N) return clone_n(src, v, typename gen_iseq<N>::type());
+    return clone_sw<N - 1>(src, v);
+}
+template <> rtosc::Ports *clone_sw<0>(const rtosc::Ports &src, const std::vector<rtosc::ClonePort> &v) {
+    (void)v;
+    return new rtosc::ClonePorts(src, {});
+}
 
 static Log *g_log = nullptr;
 
@@ -43,8 +68,8 @@ static TNode *g_root = nullptr;
 
 // the path of the port a pointer designates (searched in the whole tree), "" if none
 static std::string port_path(const rtosc::Port *p, TNode *t) {
-    for (size_t i = 0; i < t->ports.ports.size(); ++i)
-        if (&t->ports.ports[i] == p)
+    for (size_t i = 0; i < t->use->ports.size(); ++i)
+        if (&t->use->ports[i] == p)
             return (t->path == "r" ? std::string("") : t->path + ".") + std::to_string(i);
     for (auto &k : t->kids) {
         if (!k) continue;
@@ -76,9 +101,13 @@ static void log_call(char kind, const std::string &who, const char *m, rtosc::Rt
 // parse T<d>[entry,...]; returns position behind the table or npos
 static size_t parse_table(const std::string &s, size_t i, TNode &t, const std::string &path) {
     t.path = path;
-    if (i + 2 >= s.size() || s[i] != 'T' || s[i + 2] != '[') return std::string::npos;
+    if (i + 2 >= s.size() || s[i] != 'T') return std::string::npos;
     bool dflt = s[i + 1] == '1';
-    i += 3;
+    char mode = 'd';                           // d: as written, c: via ClonePorts, m: via MergePorts
+    i += 2;
+    if (s[i] == 'c' || s[i] == 'm') mode = s[i++];
+    if (i >= s.size() || s[i] != '[') return std::string::npos;
+    ++i;
     size_t idx = 0;
     while (i < s.size() && s[i] != ']') {
         if (s[i] == ',') { ++i; continue; }
@@ -105,22 +134,43 @@ static size_t parse_table(const std::string &s, size_t i, TNode &t, const std::s
             if (i == std::string::npos) return i;
             TNode *c = child.get();
             t.kids.push_back(std::move(child));
-            t.ports.ports.push_back({name, "", &c->ports,
+            t.ports.ports.push_back({name, "", c->use,
                 [ppath, c](const char *msg, rtosc::RtData &data) {
                     log_call('P', ppath, msg, data);
                     data.obj = c;
                     SNIP
-                    c->ports.dispatch(msg, data);
+                    c->use->dispatch(msg, data);
                 }});
         }
         ++idx;
     }
     if (i >= s.size()) return std::string::npos;
-    if (dflt) {
-        std::string tp = path;
-        t.ports.default_handler = [tp](const char *m, rtosc::RtData &d) { log_call('D', tp, m, d); };
+    std::string tp = path;
+    std::function<void(const char *, rtosc::RtData &)> dcb =
+        [tp](const char *m, rtosc::RtData &d) { log_call('D', tp, m, d); };
+    t.use = &t.ports;
+    if (mode == 'c' && t.ports.ports.size() <= 31) {
+        // ClonePorts(src, {{name, cb}..., {"*", default handler}})
+        std::vector<rtosc::ClonePort> v;
+        for (auto &p : t.ports.ports) v.push_back({p.name, p.cb});
+        if (dflt) v.push_back({"*", dcb});
+        t.ports.rebuild();
+        t.built.reset(clone_sw<32>(t.ports, v));
+        t.use = t.built.get();
+    } else if (mode == 'm') {
+        // MergePorts({&first half, &second half})
+        size_t h = t.ports.ports.size() / 2;
+        for (size_t j = 0; j < t.ports.ports.size(); ++j)
+            (j < h ? t.half1 : t.half2).ports.push_back(t.ports.ports[j]);
+        t.half1.rebuild();
+        t.half2.rebuild();
+        t.built.reset(new rtosc::MergePorts({&t.half1, &t.half2}));
+        if (dflt) t.built->default_handler = dcb;
+        t.use = t.built.get();
+    } else {
+        if (dflt) t.ports.default_handler = dcb;
+        t.ports.rebuild();
     }
-    t.ports.rebuild();
     return i + 1;
 }
 
@@ -182,7 +232,7 @@ static std::string one_msg(TNode &root, size_t locsize, const std::string &tok) 
         Log lg;
         lg.base = M.c();
         g_log = &lg;
-        root.ports.dispatch(M.c(), d, base);
+        root.use->dispatch(M.c(), d, base);
         g_log = nullptr;
         out += "[" + lg.s + "]m" + std::to_string(d.matches) + "p" + show_port(d.port) + "l" + hexs(d.loc);
     }
@@ -196,7 +246,7 @@ static std::string one_msg(TNode &root, size_t locsize, const std::string &tok) 
         Log lg;
         lg.base = M.c();
         g_log = &lg;
-        root.ports.dispatch(M.c(), d, base);
+        root.use->dispatch(M.c(), d, base);
         g_log = nullptr;
         out += "[" + lg.s + "]p" + show_port(d.port);
     }
